@@ -122,7 +122,7 @@ def write_evidence(prop, tier, seed, level, coverage, assumptions, wall_s, viola
     }
     if extra:
         ev.update(extra)
-    write_json(os.path.join(VERIF_DIR, "evidence", prop + ".json"), ev)
+    write_json(os.path.join(os.environ.get("VERIF_EVIDENCE_DIR", os.path.join(VERIF_DIR, "evidence")), prop + ".json"), ev)
     return ev
 
 
@@ -141,6 +141,65 @@ def _worker_init(timeout_s):
     faulthandler.enable()
     # a hung worker kills itself loudly instead of hanging the pool forever
     faulthandler.dump_traceback_later(timeout_s, exit=True)
+    # importing is state-free; the children forked per chunk inherit the imported package
+    use_repo()
+
+
+def in_child(fn, arg, timeout_s=900):
+    """Run fn(arg) in a forked child and return its (pickled) result.
+
+    The calling process never executes library code itself, so every chunk starts from the
+    same process state (interpreter + imported modules, no call history): hidden state that
+    a library keeps between calls cannot leak from one chunk into another, and a chunk is
+    reproducible in a fresh process.
+    """
+    import pickle
+    import select
+    import signal
+
+    r, w = os.pipe()
+    pid = os.fork()
+    if pid == 0:
+        code = 0
+        try:
+            os.close(r)
+            try:
+                payload = pickle.dumps(("ok", fn(arg)))
+            except BaseException as e:  # noqa
+                import traceback
+
+                payload = pickle.dumps(("err", f"{type(e).__name__}: {e}\n{traceback.format_exc()}"))
+                code = 3
+            with os.fdopen(w, "wb") as f:
+                f.write(payload)
+        finally:
+            os._exit(code)
+    os.close(w)
+    chunks = []
+    deadline = time.time() + timeout_s
+    try:
+        while True:
+            left = deadline - time.time()
+            if left <= 0:
+                os.kill(pid, signal.SIGKILL)
+                os.waitpid(pid, 0)
+                raise HarnessError(f"chunk {arg!r} exceeded {timeout_s}s")
+            ready, _, _ = select.select([r], [], [], min(left, 5.0))
+            if ready:
+                b = os.read(r, 1 << 20)
+                if not b:
+                    break
+                chunks.append(b)
+    finally:
+        os.close(r)
+    os.waitpid(pid, 0)
+    data = b"".join(chunks)
+    if not data:
+        raise HarnessError(f"child for chunk {arg!r} died without a result")
+    tag, val = pickle.loads(data)
+    if tag == "err":
+        raise HarnessError("child failed: " + val)
+    return val
 
 
 def _chunk_entry(args):
@@ -148,9 +207,9 @@ def _chunk_entry(args):
     import faulthandler
 
     faulthandler.cancel_dump_traceback_later()
-    faulthandler.dump_traceback_later(timeout_s, exit=True)
+    faulthandler.dump_traceback_later(timeout_s + 60, exit=True)
     try:
-        return fn(chunk)
+        return in_child(fn, chunk, timeout_s)
     finally:
         faulthandler.cancel_dump_traceback_later()
 
@@ -166,7 +225,7 @@ def pool_map(fn, chunks, njobs, chunk_timeout_s=600):
 
     if njobs <= 1:
         for c in chunks:
-            yield fn(c)
+            yield in_child(fn, c, chunk_timeout_s)
         return
     ctx = mp.get_context("fork")
     with cf.ProcessPoolExecutor(
